@@ -16,6 +16,7 @@ import mirq
 from mirq import show, access_path, AnchorMissing, const_of, walk
 from rulekit import Table
 from rules import common as C
+from rules import vocab as V
 
 TABLE = Table('C14')
 NOT_DECIDED = ('rate measurements; agreement "at every moment" across tasks (message latency); optimality '
@@ -41,6 +42,33 @@ def flag_field(p):
     return p.split('.')[-1] if p else None
 
 
+def counter_name(atoms):
+    """name of the local compared with MAX_UNCHOKED on this path (`count < MAX_UNCHOKED`)"""
+    for k in atoms:
+        m = re.match(r'^(?:Lt|Ge)\(([A-Za-z_][A-Za-z0-9_]*), [^)]*MAX_UNCHOKED\)$', k)
+        if m:
+            return m.group(1)
+    return None
+
+
+def bitfield_handler(F):
+    """the Peer method that answers a bitfield (builds BitfieldCmd::SendState)"""
+    return C.one([f for f in C.fns_constructing(F, r'^commands::BitfieldCmd$', 'SendState') if f.self_ty == 'peer::Peer'],
+                 'Peer method building BitfieldCmd::SendState')
+
+
+def AM(F):
+    return V.peer_am_choked(F)
+
+
+def INT(F):
+    return V.peer_interested(F)
+
+
+def OPT(F):
+    return V.peer_optimistic(F)
+
+
 @TABLE.rule('1', 'K7', 'decision table of the rotation loop: unchoked at the end of an iteration => count < MAX_UNCHOKED and '
             'interested and count += 1; unchoked peers that lost interest or do not fit are choked', floor=10)
 def r1(cx, rec):
@@ -62,16 +90,17 @@ def r1(cx, rec):
         lt = [v for k, v in at.items() if 'MAX_UNCHOKED' in k and k.startswith('Lt(')]
         ge = [not v for k, v in at.items() if 'MAX_UNCHOKED' in k and k.startswith('Ge(')]
         fits = (lt + ge)[0] if (lt + ge) else None
-        a0 = [v for k, v in at.items() if flag_field(k) == 'am_choked']
-        intr = [v for k, v in at.items() if flag_field(k) == 'interested']
+        a0 = [v for k, v in at.items() if flag_field(k) == AM(F)]
+        intr = [v for k, v in at.items() if flag_field(k) == INT(F)]
         a0 = a0[0] if a0 else None
         intr = intr[0] if intr else None
-        st = [(p, v, bb) for p, v, bb in x['stores'] if flag_field(p) == 'am_choked']
+        st = [(p, v, bb) for p, v, bb in x['stores'] if flag_field(p) == AM(F)]
         final = a0
         if st:
             c = const_of(st[-1][1])
             final = bool(c[0]) if c else None
-        incs = [v for p, v, bb in x['stores'] if p == 'count' or (p or '').endswith('count')]
+        cname = counter_name(at)
+        incs = [v for p, v, bb in x['stores'] if cname and p == cname]
         inc1 = 0
         for v in incs:
             y = v
@@ -98,7 +127,8 @@ def r1(cx, rec):
             rec.violation('undetermined/' + key, R, last, 'cannot determine the choke state at the end of the iteration: ' + desc)
     rec.need(len(ok_paths) >= 6, 'loop-too-simple', R, nb, 'rotation loop has only %d feasible paths' % len(ok_paths))
     # the counter starts at 0 before the loop
-    zero = [bi for bi, si, s in R.assigns() if not s['lhs'].get('p') and R._localnames.get(s['lhs']['l']) == 'count'
+    cnames = {counter_name(x['atoms']) for x in ok_paths} - {None}
+    zero = [bi for bi, si, s in R.assigns() if not s['lhs'].get('p') and R._localnames.get(s['lhs']['l']) in cnames
             and const_of(R.expr_rvalue(s['rv'])) and const_of(R.expr_rvalue(s['rv']))[0] == 0]
     rec.need(bool(zero) and all(nb in R.reach_from(z) and z not in R.reach_from(nb) for z in zero), 'count-init', R, None,
              'the slot counter is not reset to 0 before the loop')
@@ -174,8 +204,8 @@ def r2(cx, rec):
                                     need[show(val)] = True
                                 true_paths.append(need)
                         okf = bool(true_paths) and all(
-                            any(flag_field(k) == 'am_choked' and v is True for k, v in tp.items()) and
-                            any(flag_field(k) == 'interested' and v is True for k, v in tp.items()) for tp in true_paths)
+                            any(flag_field(k) == AM(F) and v is True for k, v in tp.items()) and
+                            any(flag_field(k) == INT(F) and v is True for k, v in tp.items()) for tp in true_paths)
                         rec.site(cf, None, 'optimistic candidates: %s' % true_paths)
                 rec.need(okf, 'optimistic-candidates', G, None, 'optimistic unchoke is not restricted to choked, interested peers')
             elif a[0] == 'call' and a[1].endswith('Vec::<T>::new'):
@@ -239,7 +269,7 @@ def r3(cx, rec):
         if f.path == R.path:
             continue
         for bi, si, s in f.stores():
-            if flag_field(access_path(f.expr_place(s['lhs']))) == 'am_choked':
+            if flag_field(access_path(f.expr_place(s['lhs']))) == AM(F):
                 c = const_of(f.expr_rvalue(s['rv']))
                 if c and c[0] == 0:
                     sites.append((f, bi))
@@ -282,8 +312,8 @@ def r3(cx, rec):
                                 # requirement: (!am_choked && !optimistic_unchoke) => counted
                                 viol = []
                                 for atoms, res in tt:
-                                    ac = [v for k, v in atoms.items() if flag_field(k) == 'am_choked']
-                                    op = [v for k, v in atoms.items() if flag_field(k) == 'optimistic_unchoke']
+                                    ac = [v for k, v in atoms.items() if flag_field(k) == AM(F)]
+                                    op = [v for k, v in atoms.items() if flag_field(k) == OPT(F)]
                                     regular_unchoked_possible = (not ac or ac[0] is False) and (not op or op[0] is False)
                                     if regular_unchoked_possible and res is False:
                                         viol.append(atoms)
@@ -304,13 +334,13 @@ def r4(cx, rec):
     # K2 who writes am_choked
     for f in F.user_fns():
         for bi, si, s in f.stores():
-            if flag_field(access_path(f.expr_place(s['lhs']))) == 'am_choked':
+            if flag_field(access_path(f.expr_place(s['lhs']))) == AM(F):
                 owner = F.owner_fn(f).path
                 rec.site(f, bi, 'store am_choked = %s' % show(f.expr_rvalue(s['rv']))[:20])
-                rec.need(owner == R.path or owner == 'peer::Peer::handle_bitfield', 'am-choked-writer/' + owner, f, bi,
+                rec.need(owner == R.path or owner == bitfield_handler(F).path, 'am-choked-writer/' + owner, f, bi,
                          'am_choked is changed in %s, whose changes are not published to the connection task' % owner)
         for bi, si, e in mirq.agg_sites(f, r'^peer::Peer$'):
-            init = dict(e[4]).get('am_choked')
+            init = dict(e[4]).get(AM(F))
             rec.need(init is not None and const_of(init) and const_of(init)[0] == 1, 'am-choked-init', f, bi, 'a new peer does not start choked')
     # pairing inside the rotation: along every path, store(v) is followed by insert(map, addr, v)
     for nb, start in loops(R):
@@ -319,26 +349,34 @@ def r4(cx, rec):
             if pf is None or set(p) & set(C.err_exit_blocks(R)) or p[-1] != nb:
                 continue
             for sp, v, sbb in pf['stores']:
-                if flag_field(sp) != 'am_choked':
+                if flag_field(sp) != AM(F):
                     continue
                 c = const_of(v)
                 later = [ce for cb, ce in pf['calls'] if p.index(cb) > p.index(sbb) and ce[4].get('name') == 'insert' and 'map' in (access_path(ce[2][0]) or '')]
                 okp = any(const_of(ce[2][2]) and c and const_of(ce[2][2])[0] == c[0] for ce in later)
                 rec.need(okp, 'state-not-published/%s' % ('choke' if c and c[0] else 'unchoke'), R, sbb,
                          'am_choked is set to %s without inserting (addr, %s) into the broadcast map on the same path' % (show(v), show(v)))
+    # whoever runs the rotation broadcasts its result on every successful path
+    for g, gb in C.callers(F, R.path):
+        sends = [bb for bb in mirq.real_calls(g) if g.expr_call(bb)[4].get('name') == 'send' and
+                 any(x[0] == 'call' and x[3] == gb and x[1] == R.path for a in g.expr_call(bb)[2][1:] for x in walk(a, inl=False))]
+        starts = [t for s2, t in g.outcome_edges(gb).get('ok', [])] or [gb]
+        okb = bool(sends) and all(C.must_pass(g, sends, C.ok_exit_blocks(g), start=st)[0] for st in starts)
+        rec.site(g, gb, 'rotation result is broadcast on every successful path: %s' % okb)
+        rec.need(okb, 'state-not-broadcast', g, gb,
+                 'the command built by the rotation (the peers whose choke state changed) is not broadcast on every successful path: '
+                 'a peer is choked or unchoked in the manager without being told')
     # the map is what gets broadcast
     for bi, si, e in mirq.agg_sites(R, r'^commands::BroadCmd$', 'SendOwnState'):
-        m = dict(e[4]).get('am_choked_map')
+        m = dict(e[4]).get(V.own_state_map(F))
         rec.site(R, bi, 'broadcast map: %s' % show(m)[:40])
         rec.need(m is not None and m[0] in ('var', 'mvar'), 'map-not-broadcast', R, bi, 'the command does not carry the map built in the loop')
     # bitfield-time unchoke is reported in the reply
-    hb = F.fn('peer::Peer::handle_bitfield') if F.has('peer::Peer::handle_bitfield') else None
-    if hb is None:
-        raise AnchorMissing('Peer::handle_bitfield')
+    hb = bitfield_handler(F)
     for bi, si, e in mirq.agg_sites(hb, r'^commands::BitfieldCmd$', 'SendState'):
-        w = dict(e[4]).get('with_am_unchoked')
+        w = dict(e[4]).get(V.reply_unchoke_flag(F))
         for b2, s2, s in hb.stores():
-            if flag_field(access_path(hb.expr_place(s['lhs']))) == 'am_choked':
+            if flag_field(access_path(hb.expr_place(s['lhs']))) == AM(F):
                 # store is on the true edge of the same flag
                 ok = False
                 for sb in hb.switches():
@@ -370,7 +408,7 @@ def r5(cx, rec):
         e = f.expr_call(gb)
         key = access_path(e[2][1])
         rec.site(f, gb, 'map.get(%s)' % key)
-        rec.need(key == 'self.connection.addr', 'own-state-key', f, gb, 'map is looked up with %s, not the connection\'s own address' % key)
+        rec.need(key == V.conn_addr_path(F), 'own-state-key', f, gb, 'map is looked up with %s, not the connection\'s own address' % key)
     sends = {}
     for p in mirq.enumerate_paths(f, tgt, f.return_blocks() + C.err_exit_blocks(f)):
         pf = mirq.path_facts(f, p)
@@ -399,7 +437,7 @@ def r5(cx, rec):
     for g in F.user_fns():
         for sb2 in g.switches():
             ce, ts, o = g.cond(sb2)
-            if (access_path(ce) or '').endswith('with_am_unchoked') and g.bool_edges(sb2):
+            if (access_path(ce) or '').split('.')[-1] == V.reply_unchoke_flag(F) and g.bool_edges(sb2):
                 tt, ff = g.bool_edges(sb2)
                 t_unch = [bb for bb in mirq.real_calls(g) if 'send_msg' in (g.blocks[bb]['t'].get('callee') or '') and (g.blocks[bb]['t'].get('gargs') or [''])[0].endswith('Unchoke')]
                 if any(bb in g.only_via_edge((sb2, tt)) for bb in t_unch) and not any(bb in g.reach_from(ff, cut_blocks=[sb2]) and bb in g.only_via_edge((sb2, ff)) for bb in t_unch):
@@ -409,7 +447,7 @@ def r5(cx, rec):
     # same string for map key and task address at the spawn sites
     for g in F.user_fns():
         ph = [bb for bb in mirq.real_calls(g) if (g.blocks[bb]['t'].get('callee') or '').endswith('PeerHandler::new')]
-        ins = [bb for bb in mirq.real_calls(g) if g.blocks[bb]['t'].get('name') == 'insert' and 'peers' in (access_path(g.expr_call(bb)[2][0]) or '')]
+        ins = [bb for bb in mirq.real_calls(g) if g.blocks[bb]['t'].get('name') == 'insert' and (access_path(g.expr_call(bb)[2][0]) or '').split('.')[-1] == V.peers_map(F)]
         for pb in ph:
             a = show(mirq.strip(g.expr_call(pb)[2][0]))
             ks = [show(mirq.strip(g.expr_call(ib)[2][1])) for ib in ins]
